@@ -93,6 +93,20 @@ Fixpoint shape_b (ps : list bytes) (n_ends_gmp : bool) : bool :=
   | p :: ps' => slash_part_b p && shape_b ps' n_ends_gmp
   end.
 
+(** [.fullname] next to other projections of the same parser: the parts named
+    by the excluded keys are removed - a part "/k=..." for an excluded key
+    "/k" spelled exactly so, the trailing "-N" for the exact key "/gomaxprocs",
+    the base replaced by "*" for the exact key ".name".  Every other excluded
+    key (a plain key, a key differing from a special key in letter case)
+    removes nothing special.  Stated on a decomposition (base, parts). *)
+Definition spec_part_excluded (ex : list bytes) (p : bytes) : bool :=
+  existsb (fun k => is_subname_key k && has_prefix p (k ++ [c_eq])) ex
+  || (existsb (beq (bs "/gomaxprocs")) ex
+      && match p with c :: _ => Byte.eqb c c_dash | [] => false end).
+Definition spec_xfull (ex : list bytes) (b : bytes) (ps : list bytes) : bytes :=
+  (if existsb (beq (bs ".name")) ex then [c_star] else b)
+    ++ concat (filter (fun p => negb (spec_part_excluded ex p)) ps).
+
 Definition prop_one (c : case) : bool :=
   let cfgs := to_cfg (k_cfg c) in
   beq (k_base c ++ concat (k_parts c)) (k_name c)
@@ -101,7 +115,8 @@ Definition prop_one (c : case) : bool :=
   && beq (k_Base c) (k_base c)
   (* key semantics: [extract] is proved to be the documented meaning (Properties/C05.v) *)
   && forallb (fun '(k, got) => beq (extract k (k_name c) cfgs) got) (k_gets c)
-  && forallb (fun '(k, lit, m) => Bool.eqb (beq (extract k (k_name c) cfgs) lit) m) (k_fmatch c).
+  && forallb (fun '(k, lit, m) => Bool.eqb (beq (extract k (k_name c) cfgs) lit) m) (k_fmatch c)
+  && forallb (fun '(ex, got) => beq (spec_xfull ex (k_base c) (k_parts c)) got) (k_xfull c).
 
 Definition corr_one (c : case) : bool :=
   let cfgs := to_cfg (k_cfg c) in
@@ -126,7 +141,8 @@ Definition prop_ok (c : kase) : bool :=
   | KHist keys ex steps =>
       forallb (fun st => hist_step_ok keys st
                  (* .fullname with nothing excluded is the whole name, at every step *)
-                 && (negb (is_nil ex) || beq (h_xfull st) (h_name st))) steps
+                 && (negb (is_nil ex) || beq (h_xfull st) (h_name st))
+                 && (let '(b, ps) := parts (h_name st) in beq (spec_xfull ex b ps) (h_xfull st))) steps
   end.
 
 Definition corr_ok (c : kase) : bool :=
